@@ -342,25 +342,22 @@ func main() {
 
 	var prelude strings.Builder
 	for _, d := range env.Decls {
-		flags := ""
-		if d.Pkg != "" {
-			flags += "e"
-		}
+		// every declaration lives in package p or ext, i.e. outside the packages q<N> that hold the derive
+		// calls: all of them are "external" for the generator; a field is private (goderive's Field.Private)
+		// when its first byte is not changed by lower-casing
+		flags := "e"
 		if d.Priv {
 			flags += "p"
 		}
 		if d.Under.K == ty.Struct {
 			flags += "m"
 			for _, f := range d.Under.Fields {
-				if f.Name[0] >= 'a' && f.Name[0] <= 'z' {
+				if strings.ToLower(f.Name[0:1]) == f.Name[0:1] {
 					flags += "1"
 				} else {
 					flags += "0"
 				}
 			}
-		}
-		if flags == "" {
-			flags = "-"
 		}
 		fmt.Fprintf(&prelude, "decl %s %s\n", flags, d.Under.Wire())
 	}
